@@ -43,6 +43,8 @@ def parse(txt):
     for chunk in re.split(r"\n(?=fn )", txt):
         if not chunk.startswith("fn "):
             continue
+        end = chunk.find("\n}\n")
+        if end >= 0: chunk = chunk[:end + 3]        # a chunk may be followed by `const`/`static`/promoted bodies: keep the function only
         head = chunk.split("\n", 1)[0]
         # the argument list starts at the LAST top-level '(' before ') -> ': find it by scanning for the name end
         m = re.match(r"^fn (.*) -> (.*) \{$", head)
